@@ -101,6 +101,14 @@ def nasty_literals():
     d['uuid'] = c08x.NASTY_UUID + ['１2345678-1234-5678-1234-567812345678', '12345678-1234-5678-1234-56781234567\x00', '٣' * 32, 'é' * 32,
                                    '0' * 31, '0' * 33, '0' * 4301, 'urn:uuid:', '12345678-1234-5678-1234-5678123456 8', '-' * 31 + '1',
                                    '+1' + '0' * 30, '-1' + '0' * 30]
+    d['datefmt'] = ['2020-01-02', '32.01.2020', '02.13.2020', '29.02.2021', '2.1.2020', '02.01.20', '02.01.10000', '00.00.0000', '02.01.2020 ',
+                    ' 02.01.2020', '02.01.2020x', '02/01/2020', '٠٢.٠١.٢٠٢٠', '02.01.2020\x00', '9' * 5000, '02.01.' + '9' * 5000, '02.01.-2020', '%d.%m.%Y',
+                    '02.01.2020+05:00', '02.01.2020Z']
+    d['dtfmt'] = ['2020-01-02T03:04:05', '20200102 030405Z', '20201302 030405', '20200102 250000', '20200102 030460', '20200102', '20200102  030405',
+                  '20200102 030405 ', '٢٠٢٠٠١٠٢ 030405', '20200102 030405\x00', '9' * 5000, '00000000 000000', '20200230 000000', '2020010 2030405', '%Y%m%d %H%M%S']
+    d['uuidint'] = ['0', '-1', '1.5', '1e3', 'abc', str(2 ** 128 - 1), str(2 ** 128), str(2 ** 200), '9' * 4300, '9' * 4301, ' 5', '5 ', '0x10', '１２', '1_0', '',
+                    '12345678-1234-5678-1234-567812345678', 'NaN', '+5', '--5']
+    d['dtnum'] = ['1600000000', '-1', '0', '1e30', 'abc', '1600000000.5', 'NaN', 'inf', '9' * 30, '', ' ', '2020-01-02T03:04:05']
     d['str'] = ['abcd', 'ABC', 'a b', 'é', 'a' * 70000, '\x00', '\ud800', '\udfff\ud800', 'a\x0bb', '￾', '￿', '\x85', ' ']
     d['enum'] = ['nope', 'RED', ' red', 'red ', '__class__', '__doc__', '__module__', 'mro', '__values__', 'Attributes', 'red\x00',
                  'ｒｅｄ', '__init__', 'get_type_name', '_type_info']
@@ -137,8 +145,11 @@ def leaf_universe():
     _, ints, _ = c08.impl_env()
     K = OrderedDict()
 
-    def add(kid, cls, fam, valid, native=None):
-        K[kid] = {'id': kid, 'cls': cls, 'fam': fam, 'valid': valid, 'native': valid if native is None else native}
+    def add(kid, cls, fam, valid, native=None, only=None, skip=(), nosanity=()):
+        """`only`: the protocols the kind makes sense for; `skip`: validators it is not used with; `nosanity`: validators under
+        which even the valid value is refused (the hostile literals are still sent)"""
+        K[kid] = {'id': kid, 'cls': cls, 'fam': fam, 'valid': valid, 'native': valid if native is None else native, 'only': only,
+                  'skip': tuple(skip), 'nosanity': tuple(nosanity)}
     for k, cls in ints.items():
         add('int_' + k, cls, 'int', '5', 5)
     add('int_ge0le9', P.Integer(ge=0, le=9), 'int', '5', 5)
@@ -165,10 +176,26 @@ def leaf_universe():
     add('dbl', P.Double, 'dbl', '1.5', 1.5)
     add('dbl_ge0', P.Double(ge=0), 'dbl', '1.5', 1.5)
     add('uuid', P.Uuid, 'uuid', '12345678-1234-5678-1234-567812345678')
+    # round 4: customisations that select other branches of the leaf parsers
+    add('date_fmt', P.Date(format='%d.%m.%Y'), 'datefmt', '02.01.2020', only=('xml', 'http') + DICT_PROTOS, skip=('lxml',))
+    # (Soap11 / Soap12 insist on ISO 8601 and ignore dt_format)
+    add('dt_fmt', P.DateTime(dt_format='%Y%m%d %H%M%S'), 'dtfmt', '20200102 030405', only=('xml', 'http') + DICT_PROTOS, skip=('lxml',))
+    # (the schema advertises the dashed pattern of the default flavour)
+    add('uuid_hex', P.Uuid(serialize_as='hex'), 'uuid', '12345678123456781234567812345678', skip=('lxml',))
+    # (the number flavour: only documents that carry numbers; its string validator never accepts text)
+    add('uuid_int', P.Uuid(serialize_as='int'), 'uuidint', '24197857161011715162171839636988778104', 24197857161011715162171839636988778104,
+        only=DICT_PROTOS, nosanity=('soft',))
+    add('str_enc', P.Unicode(encoding='latin-1'), 'str', 'abc')
+    # (a ByteArray without an encoding of its own: base64 text except where the protocol carries bytes natively)
+    add('base64_default', ByteArray, 'base64', 'YWJj', only=XML_PROTOS + ('json', 'yaml', 'http'))
+    for sa in ('sec', 'sec_float', 'msec', 'msec_float', 'usec'):
+        # numbers on the wire: only the dict-document protocols carry them; their soft validation wants DateTime as text
+        add('dt_' + sa, P.DateTime(serialize_as=sa), 'dtnum', '1600000000', 1600000000, only=DICT_PROTOS, skip=('soft',))
     return K
 
 
 POSITIONS = ('top', 'nested', 'array', 'repeated')
+XML_POSITIONS = POSITIONS + ('attr', 'data')
 XML_PROTOS = ('xml', 'soap11', 'soap12')
 DICT_PROTOS = ('json', 'yaml', 'msgpack', 'msgpackrpc')
 
@@ -190,7 +217,7 @@ class World(object):
 
     def __init__(self, kinds):
         from spyne import rpc, ServiceBase
-        from spyne.model.complex import ComplexModel, Array
+        from spyne.model.complex import ComplexModel, Array, XmlAttribute, XmlData
         from spyne.model import primitive as P
         self.K = kinds
         self.calls = []
@@ -204,9 +231,12 @@ class World(object):
             obj = type(ComplexModel)('O_' + kid, (ComplexModel,), {'__namespace__': TNS, '_type_info': [('x', cls)]})
             arr = Array(cls)
             rep = cls.customize(max_occurs='unbounded')
+            # the leaf as an XML attribute and as the character data of an element
+            oa = type(ComplexModel)('OA_' + kid, (ComplexModel,), {'__namespace__': TNS, '_type_info': [('v', XmlAttribute(cls)), ('w', P.Unicode)]})
+            od = type(ComplexModel)('OD_' + kid, (ComplexModel,), {'__namespace__': TNS, '_type_info': [('v', XmlData(cls)), ('u', XmlAttribute(P.Unicode))]})
             name = 'f_' + kid
-            exec('def %s(ctx, a, o, arr, rep):\n    _w.calls.append((%r, a, o, arr, rep))\n    return "ok"\n' % (name, name), env)
-            methods[name] = rpc(cls, obj, arr, rep, _returns=P.Unicode)(env[name])
+            exec('def %s(ctx, a, o, arr, rep, oa, od):\n    _w.calls.append((%r, a, o, arr, rep, oa, od))\n    return "ok"\n' % (name, name), env)
+            methods[name] = rpc(cls, obj, arr, rep, oa, od, _returns=P.Unicode)(env[name])
         # the plain method of the transport / byte-level parts
         self.boom = None
         exec('def echo(ctx, s, n):\n    _w.calls.append(("echo", s, n))\n    if _w.boom is not None:\n        raise _w.boom\n'
@@ -217,20 +247,30 @@ class World(object):
         hdr_b = type(ComplexModel)('HdrB', (ComplexModel,), {'__namespace__': TNS, '_type_info': [('n', P.Integer)]})
         exec('def echoh(ctx, s, n):\n    _w.calls.append(("echoh", s, n))\n    return s\n', env)
         methods['echoh'] = rpc(P.Unicode, P.Integer, _returns=P.Unicode, _in_header=(hdr_a, hdr_b))(env['echoh'])
+        exec('def echoh1(ctx, s, n):\n    _w.calls.append(("echoh1", s, n))\n    return s\n', env)
+        methods['echoh1'] = rpc(P.Unicode, P.Integer, _returns=P.Unicode, _in_header=(hdr_a,))(env['echoh1'])
+        # objects in arrays / repeated objects (the flat notations of HttpRpc), a class with a subclass (polymorphic documents)
+        item = type(ComplexModel)('Item10', (ComplexModel,), {'__namespace__': TNS, '_type_info': [
+            ('x', P.Integer), ('tags', P.Unicode(max_occurs='unbounded'))]})
+        sub = type(ComplexModel)('SubItem10', (item,), {'__namespace__': TNS, '_type_info': [('y', P.Integer)]})
+        self.item, self.subitem = item, sub
+        exec('def hq(ctx, items, one, many):\n    _w.calls.append(("hq", items, one, many))\n    return "ok"\n', env)
+        methods['hq'] = rpc(Array(item), item, item.customize(max_occurs='unbounded'), _returns=P.Unicode)(env['hq'])
         self.service = type('LeafSvc', (ServiceBase,), methods)
 
     # ------------------------------------------------------------------ servers
-    def server(self, proto, validator):
-        key = (proto, validator)
+    def server(self, proto, validator, **opts):
+        """`opts`: keyword arguments of the input protocol (strict_arrays, polymorphic, ...)"""
+        key = (proto, validator) + tuple(sorted(opts.items()))
         s = self.servers.get(key)
         if s is None:
             from spyne import Application
             from spyne.server import ServerBase
             from spyne.server.wsgi import WsgiApplication
-            inp, outp = self._protocols(proto, validator)
+            inp, outp = self._protocols(proto, validator, opts)
             app = Application([self.service], TNS, name='C10App', in_protocol=inp, out_protocol=outp)
             s = {'app': app, 'base': ServerBase(app) if proto != 'http' else None, 'wsgi': WsgiApplication(app),
-                 'proto': proto, 'validator': validator}
+                 'proto': proto, 'validator': validator, 'opts': dict(opts)}
             self.servers[key] = s
             if not self.member_ready:
                 # the element name / namespace of array items is settled when the interface is built
@@ -241,24 +281,27 @@ class World(object):
                 self.member_ready = True
         return s
 
-    def _protocols(self, proto, validator):
+    def _protocols(self, proto, validator, opts=None):
+        opts = opts or {}
         if proto in XML_PROTOS:
             from .xmlblock import make_protocol
-            return make_protocol(proto, validator), make_protocol(proto, None)
+            return make_protocol(proto, validator, **opts), make_protocol(proto, None)
         if proto == 'http':
             from spyne.protocol.http import HttpRpc
             from spyne.protocol.json import JsonDocument
-            return HttpRpc(validator=validator), JsonDocument()
+            return HttpRpc(validator=validator, **opts), JsonDocument()
         from .hierblock import proto_class
         pc = proto_class(proto)
-        return pc(validator=validator), pc()
+        return pc(validator=validator, **opts), pc()
 
     # ------------------------------------------------------------------ request documents
     def values(self, kid, pos, lit, native=False):
         """the four argument values of f_<kid>: `lit` at `pos`, the valid literal elsewhere"""
         v = self.K[kid]['native' if native else 'valid']
-        vals = {'top': v, 'nested': v, 'array': [v], 'repeated': [v, v]}
-        if pos == 'top':
+        vals = {'top': v, 'nested': v, 'array': [v], 'repeated': [v, v], 'attr': None, 'data': None}
+        if pos in ('attr', 'data'):
+            vals[pos] = lit
+        elif pos == 'top':
             vals['top'] = lit
         elif pos == 'nested':
             vals['nested'] = lit
@@ -268,7 +311,7 @@ class World(object):
             vals['repeated'] = [lit, v]
         return vals
 
-    def xml_request(self, proto, kid, pos, lit):
+    def xml_request(self, proto, kid, pos, lit, deco=None):
         """bytes of the request document, or None when XML cannot carry the literal"""
         from lxml import etree
         self.server(proto, None)
@@ -283,6 +326,16 @@ class World(object):
                 etree.SubElement(arr, self.member[kid]).text = v
             for v in vals['repeated']:
                 etree.SubElement(root, q('rep')).text = v
+            if vals['attr'] is not None:
+                oa = etree.SubElement(root, q('oa'))
+                oa.set('v', vals['attr'])
+                etree.SubElement(oa, q('w')).text = 'w'
+            if vals['data'] is not None:
+                od = etree.SubElement(root, q('od'))
+                od.text = vals['data']
+                od.set('u', 'u')
+            if deco is not None:
+                deco(etree, root, q)
         except ValueError:
             return None
         return etree.tostring(soap_wrap(proto, root), encoding='utf-8', xml_declaration=True)
@@ -813,7 +866,7 @@ def status_tables():
 # ---- the transport decision table
 P_FAMS = ['soap', 'plain', 'http']
 P_METHODS = ['post', 'get', 'other']
-P_CTYPES = ['absent', 'proper', 'garbage', 'multipartNoBoundary', 'otherType']
+P_CTYPES = ['absent', 'proper', 'garbage', 'multipartNoBoundary', 'otherType', 'multipartBoundary']
 P_LENS = ['absent', 'empty', 'exact', 'short', 'long', 'overMax', 'negative', 'nonNumeric', 'float', 'huge', 'padded', 'plus']
 FAM_PROTO = {'soap': 'soap11', 'plain': 'json', 'http': 'http'}
 MAX_LEN = 2 * 1024 * 1024
@@ -831,7 +884,8 @@ def len_text(cls, n):
 
 def ctype_text(cls, proto):
     return {'absent': None, 'proper': CONTENT_TYPES[proto] or 'application/x-www-form-urlencoded', 'garbage': '@@@;;;==;charset',
-            'multipartNoBoundary': 'multipart/related', 'otherType': 'text/plain'}[cls]
+            'multipartNoBoundary': 'multipart/related', 'otherType': 'text/plain',
+            'multipartBoundary': 'multipart/related; boundary="c10bnd"; type="text/xml"; start="<soap>"'}[cls]
 
 
 def method_text(cls):
@@ -944,6 +998,8 @@ def measure_facts(W):
     f['preTable'], f['preDetail'] = measure_pre_table(W)
     # (e) the decompose stage of Soap11 / Soap12 over envelope shapes
     f['envTable'] = measure_env_table(W)
+    f['hrefTable'] = measure_href_table(W)
+    f['urlTable'], f['urlDetail'] = measure_url_table(W)
     return f
 
 
@@ -977,15 +1033,9 @@ LEAN_PROTO = {'xml': 'xml', 'soap11': 'soap11', 'soap12': 'soap12', 'json': 'jso
               'msgpackrpc': 'msgpackRpc', 'http': 'httpRpc'}
 
 
-def facts_lean(f):
-    def per_proto(d, fmt):
-        return '\n'.join('    | .%s => %s' % (LEAN_PROTO[p], fmt(d[p])) for p in PROTO_SITES)
-
-    def single(ch):
-        # the server functions have one `try` around the stage
-        return _lean_try(ch[0]) if ch else '[]'
+def pre_rows_lean(table):
     rows = []
-    for d in f['preTable']:
+    for d in table:
         if d[0] == 'proceed':
             rows.append('.proceed')
         elif d[0] == 'reject':
@@ -994,7 +1044,17 @@ def facts_lean(f):
             rows.append('.unavailable')
         else:
             rows.append('.escape %s' % _lean_str(d[1]))
-    table = ',\n    '.join(', '.join(rows[i:i + 6]) for i in range(0, len(rows), 6))
+    return ',\n    '.join(', '.join(rows[i:i + 6]) for i in range(0, len(rows), 6))
+
+
+def facts_lean(f):
+    def per_proto(d, fmt):
+        return '\n'.join('    | .%s => %s' % (LEAN_PROTO[p], fmt(d[p])) for p in PROTO_SITES)
+
+    def single(ch):
+        # the server functions have one `try` around the stage
+        return _lean_try(ch[0]) if ch else '[]'
+    table = pre_rows_lean(f['preTable'])
     tab = lambda t: ' | '.join('.%s => %d' % (k, t[k]) for k in FAULT_CLASSES)
     return '''-- GENERATED by harness/c10.py (T1) from /repo on every run. Do not edit.
 import SpyneModel.Hostile
@@ -1026,6 +1086,10 @@ def facts10 : Facts10 where
     %s]
   envTable := [
     %s]
+  hrefTable := [
+    %s]
+  urlTable := [
+    %s]
 
 end SpyneModel.Generated
 ''' % (per_proto(f['parseChain'], _lean_chain), per_proto(f['decodeChain'], _lean_chain), single(f['genContexts']),
@@ -1033,7 +1097,8 @@ end SpyneModel.Generated
        per_proto(f['raisable'], lambda l: _lean_list(_lean_exc(e) for e in l)),
        per_proto(f['raisableText'], lambda l: _lean_list(_lean_exc(e) for e in l)),
        _lean_list(_lean_exc(e) for e in f['raisableDecode']),
-       per_proto(f['textInput'], lambda b: 'true' if b else 'false'), tab(f['statusPlain']), tab(f['statusSoap']), f['okStatus'], table, env_rows_lean(f['envTable']))
+       per_proto(f['textInput'], lambda b: 'true' if b else 'false'), tab(f['statusPlain']), tab(f['statusSoap']), f['okStatus'], table, env_rows_lean(f['envTable']), env_rows_lean(f['hrefTable']),
+       pre_rows_lean(f['urlTable']))
 
 
 # ====================================================================================== stage-level observations (T2)
@@ -1249,12 +1314,15 @@ def part_leaves(ctx, W, J, t2):
         fam = family(proto)
         for kid, i, lit in leaf_cases(ctx, W, N):
             k = W.K[kid]
+            if (k['only'] is not None and proto not in k['only']) or validator in k['skip']:
+                continue
             valid = lit is None
             if valid:
                 lit = k['valid'] if (proto in XML_PROTOS or proto == 'http') else k['native']
-            positions = [POSITIONS[(i + ci + seed) % 4]]
+            pool = XML_POSITIONS if proto in XML_PROTOS else POSITIONS
+            positions = [pool[(i + ci + seed) % len(pool)]]
             if ctx.thorough:
-                positions.append(POSITIONS[(i + ci + seed + 2) % 4])
+                positions.append(pool[(i + ci + seed + 2) % len(pool)])
             if valid:
                 positions = ['top']
             elif proto == 'yaml' and (i + ci + seed) % (2 if ctx.thorough else 3):
@@ -1278,7 +1346,8 @@ def part_leaves(ctx, W, J, t2):
                     ctx.hit('leaf:%s:%s:%s' % (fam, k['fam'], r.kind if r.kind != 'fault' else ('client' if is_client(r.code) else 'server')))
                     ctx.hit('leaf-pos:' + pos)
                     if valid:
-                        J.sanity(s, r, 'base', rp)
+                        if validator not in k['nosanity']:
+                            J.sanity(s, r, 'base', rp)
                     else:
                         J.check(s, r, 'base', rp, leaf=k['fam'], data=data)
                     if valid or do_wsgi or (r.kind != 'ok' and (i + ci + seed) % 2 == 0):
@@ -1291,15 +1360,23 @@ def part_leaves(ctx, W, J, t2):
                     ctx.hit('leaf-wsgi:%s:%s' % (fam, r.status))
                     env['wsgi.input'] = Input(env['c10.raw'])
                     if valid:
-                        J.sanity(s, r, 'wsgi', rp)
+                        if validator not in k['nosanity']:
+                            J.sanity(s, r, 'wsgi', rp)
                     else:
                         J.check(s, r, 'wsgi', rp, leaf=k['fam'], env=env)
                     t2.add(funnel_query(W, s, 'wsgi', env=env, key=std_key(proto)), r,
                            dict(rp, proto=proto, validator=validator, transport='wsgi'))
+        if proto in XML_PROTOS:
+            n_req += xml_decorations(ctx, W, J, t2, s, ci)
+            if validator != 'lxml':
+                # the same with a parser that keeps processing instructions (constructor option remove_pis=False; comments are always removed)
+                n_req += xml_decorations(ctx, W, J, t2, W.server(proto, validator, remove_pis=False), ci, only_clutter=True)
         # values of the wrong kind where the transport can carry them
         if proto in DICT_PROTOS:
             pool = native_nasty(proto)
             for kid, k in W.K.items():
+                if (k['only'] is not None and proto not in k['only']) or validator in k['skip']:
+                    continue
                 for j, v in enumerate(pool):
                     pos = POSITIONS[(j + ci + seed) % 4]
                     if not ctx.thorough and (j + ci + seed + len(kid)) % 2:
@@ -1491,7 +1568,7 @@ def part_bytes(ctx, W, J, t2, facts):
             continue
         s = W.server(proto, validator)
         fam = family(proto)
-        kid = rng.choice(list(W.K))
+        kid = rng.choice([k_ for k_, v_ in W.K.items() if v_['only'] is None and not v_['skip']])
         valid_docs = [W.echo_request(proto), W.echo_request(proto, s='h\xe9 <&> \u20ac "q"', n=-12)]
         lit = W.K[kid]['valid'] if proto in XML_PROTOS else W.K[kid]['native']
         valid_docs.append(W.xml_request(proto, kid, 'top', lit) if proto in XML_PROTOS else W.dict_request(proto, kid, 'top', lit))
@@ -1654,6 +1731,7 @@ def run(ctx):
     ctx.cov['facts10']['preTable'] = {'/'.join(k): list(d) for k, d in zip(pre_keys(), f['preTable']) if d[0] != 'proceed'}
     report_fact_findings(ctx, W, f)
     report_env_findings(ctx, W, f)
+    report_table_findings(ctx, W, f)
     ctx.cov['facts10']['envTable'] = {'/'.join(k): list(d) for k, d in zip(env_keys(), f['envTable']) if d[0] != 'clientFault'}
     ctx.prove()
     # ---- T3 (+ the cases of T2)
@@ -1666,7 +1744,8 @@ def run(ctx):
     n2 = part_transport(ctx, W, J, t2, f)
     n3 = part_bytes(ctx, W, J, t2, f)
     n4 = part_envelope(ctx, W, J, t2)
-    ctx.log('parts (b) transport, (c) bytes, (d) envelopes: %d + %d + %d requests' % (n2, n3, n4))
+    n5 = part_multiref(ctx, W, J, t2) + part_http_flat(ctx, W, J, t2) + part_environ(ctx, W, J, t2, f) + part_configs(ctx, W, J, t2)
+    ctx.log('parts (b) transport, (c) bytes, (d) envelopes, (e) multiref / flat / environ / configs: %d + %d + %d + %d requests' % (n2, n3, n4, n5))
     deep_nesting_probe(ctx)
     nd = t2.run()
     ctx.log('T2 funnel: %d cases, %d disagreements' % (len(t2.q), nd))
@@ -1699,7 +1778,7 @@ def run(ctx):
 # ====================================================================================== replay
 def replay(ctx, obj):
     kind = obj.get('kind', '')
-    if kind in ('leaf', 'leaf-native', 'transport', 'charset', 'input', 'qs', 'path', 'bytes', 'deep', 'envelope'):
+    if kind in ('leaf', 'leaf-native', 'transport', 'charset', 'input', 'qs', 'path', 'bytes', 'deep', 'envelope', 'flat', 'url', 'headers', 'mime', 'user'):
         return replay_own(ctx, obj)
     for m in _blocks():
         if hasattr(m, 'replay'):
@@ -1727,8 +1806,21 @@ def replay_own(ctx, obj):
         return 1
     W = World(leaf_universe())
     proto, validator = obj['proto'], obj.get('validator')
-    s = W.server(proto, validator)
+    opts = dict(obj.get('opts') or {})
+    if kind == 'flat':
+        opts['strict_arrays'] = bool(obj.get('strict'))
+    if kind == 'headers' and proto == 'http':
+        opts['parse_cookie'] = True
+    s = W.server(proto, validator, **opts)
     runs = []
+    if kind == 'user':
+        from spyne.model.fault import Fault
+        W.boom = Fault(PROBE_FAULT, 'probe') if obj.get('want') == 'client' else ProbeError('probe')
+        env = base_environ(proto, b'', path='/echo', qs='s=hi&n=5', method='GET') if proto == 'http' else base_environ(proto, W.echo_request(proto))
+        r = run_wsgi(W, s, env)
+        W.boom = None
+        print('wsgi : %s code=%s status=%s exception=%s calls=%d' % (r.kind, r.code, r.status, r.exc, r.calls))
+        return 1
     if kind in ('leaf', 'leaf-native'):
         lit = obj.get('lit')
         if kind == 'leaf-native':
@@ -1758,7 +1850,32 @@ def replay_own(ctx, obj):
         runs.append(('wsgi', run_wsgi(W, s, env), dict(env=env)))
     else:
         body = bytes.fromhex(obj.get('body_hex', ''))
-        if kind == 'transport':
+        if kind == 'flat':
+            qs = flat_queries()[obj['qs_index']]
+            env = base_environ('http', b'', path='/hq', qs=qs, method='GET')
+            try:
+                qs.encode('latin-1')
+            except UnicodeEncodeError:
+                env['QUERY_STRING'] = quote(qs, safe='=&[].')
+        elif kind == 'url':
+            env, body = url_environ(W, tuple(obj['key']))
+            if proto != FAM_PROTO[obj['key'][0]]:
+                body = W.echo_request(proto)
+                env2 = base_environ(proto, body, path=env['PATH_INFO'])
+                for k_ in ('SCRIPT_NAME', 'HTTP_HOST', 'wsgi.url_scheme', 'SERVER_PORT'):
+                    if k_ in env:
+                        env2[k_] = env[k_]
+                env = env2
+        elif kind == 'headers':
+            if proto == 'http':
+                env = base_environ(proto, b'', path='/echo', qs='s=hi&n=5', method='GET')
+            else:
+                env = base_environ(proto, W.echo_request(proto))
+            env.update(HEADER_SETS[obj['index']])
+        elif kind == 'mime':
+            env = base_environ(proto, body)
+            env['CONTENT_TYPE'] = obj['content_type']
+        elif kind == 'transport':
             env, _ = key_environ(W, tuple(obj['key']), data=body if proto != 'http' else None)
             if proto != FAM_PROTO[obj['key'][0]] and obj['key'][2] == 'proper':
                 env['CONTENT_TYPE'] = CONTENT_TYPES[proto]
@@ -2029,4 +2146,404 @@ def part_envelope(ctx, W, J, t2):
             J.check(s, r, 'wsgi', rp, leaf='envelope', env=env)
             t2.add(funnel_query(W, s, 'wsgi', env=env, key=std_key(proto)), r, dict(rp, proto=proto, validator=validator, transport='wsgi'))
     ctx.cov['envelope_requests'] = n
+    return n
+
+
+# ====================================================================================== round 4: XML decorations of the leaf requests
+XSI = 'http://www.w3.org/2001/XMLSchema-instance'
+NIL_VALUES = ['true', '1', 'false', '0', 'TRUE', '', 'nil', ' true ', 'yes']
+
+
+def xml_decorations(ctx, W, J, t2, s, ci, only_clutter=False):
+    """xsi:nil in every spelling on every leaf position (with and without content), comments / processing instructions / stray
+    text between the members, an attribute named like a sibling member, an undeclared attribute on the attribute-carrying
+    element: per leaf kind, for this XML protocol x validator"""
+    proto = s['proto']
+    n = 0
+    seed = ctx.seed
+    for ki, (kid, k) in enumerate(W.K.items()):
+        if (k['only'] is not None and proto not in k['only']) or s['validator'] in k['skip']:
+            continue
+        cases = []
+        for pi, pos in enumerate(XML_POSITIONS):
+            if pos == 'attr':
+                continue
+            for vi, nv in enumerate(NIL_VALUES):
+                if not ctx.thorough and (vi + pi + ki + ci + seed) % 4:
+                    continue
+                for keep_text in (True, False):
+                    cases.append(('nil:%s:%r:%s' % (pos, nv, 'text' if keep_text else 'empty'), pos, nv, keep_text))
+
+        def nil_deco(pos, nv, keep_text):
+            def deco(etree, root, q):
+                path = {'top': 'a', 'nested': 'o/x', 'array': 'arr/*[last()]', 'repeated': 'rep[1]', 'data': 'od'}[pos]
+                ns = {'t': TNS}
+                el = root.xpath('/'.join('t:' + p if p[0] != '*' else p for p in path.split('/')), namespaces=ns)[0]
+                el.set('{%s}nil' % XSI, nv)
+                if not keep_text:
+                    el.text = None
+            return deco
+        todo = [] if only_clutter else [(tag, pos, nil_deco(pos, nv, kt)) for tag, pos, nv, kt in cases]
+
+        def clutter(etree, root, q):
+            root.insert(0, etree.Comment(' c10 '))
+            root.insert(2, etree.ProcessingInstruction('c10', 'x="1"'))
+            root[1].tail = 'stray text'
+            o = root.find(q('o'))
+            o.insert(0, etree.Comment(' in o '))
+            o.set('x', '1')                 # an attribute named like the member
+            o.set('zz', '1')                # an undeclared attribute
+            arr = root.find(q('arr'))
+            arr.append(etree.Comment(' in arr '))
+            arr.text = 'text in arr'
+            arr.insert(0, etree.ProcessingInstruction('c10', 'in-arr'))
+            o.append(etree.ProcessingInstruction('c10', 'in-o'))
+            hdr_like = root.find(q('a'))
+            if hdr_like is not None:
+                hdr_like.append(etree.ProcessingInstruction('c10', 'in-leaf'))
+        todo.append(('clutter', 'attr', clutter))
+        todo.append(('clutter', 'data', clutter))
+        for tag, pos, deco in todo:
+            lit = k['valid']
+            data = W.xml_request(proto, kid, pos, lit, deco=deco)
+            if data is None:
+                continue
+            rp = {'kind': 'bytes', 'mutation': 'xml-' + tag, 'kid': kid, 'request_hex': data.hex(), 'request_len': len(data), 'opts': s.get('opts') or {}}
+            r = run_base(W, s, data)
+            n += 1
+            ctx.case({'xml-deco': [proto, s['validator'], kid, tag]})
+            ctx.hit('xml-deco:%s:%s' % (tag.split(':')[0], r.kind if r.kind != 'fault' else ('client' if is_client(r.code) else 'server')))
+            J.check(s, r, 'base', rp, leaf=k['fam'] + ':' + tag.split(':')[0], data=data)
+            t2.add(funnel_query(W, s, 'base', data=data), r, dict(rp, proto=proto, validator=s['validator'], transport='base'))
+    return n
+
+
+# ====================================================================================== round 4: the flat notations of HttpRpc
+def flat_queries():
+    big = '9' * 5000
+    return ['items[0].x=1&items[1].x=2', 'items[5].x=1', 'items[99999999].x=1', 'items[%s].x=1' % big, 'items=empty', 'one=empty', 'one.x=1&one=empty',
+            'items[0]=1', 'items[0].tags[1]=a', 'items[0].tags[%s]=a' % big, 'items[-1].x=1', 'items[0][1].x=1', 'many[0].x=1&many[2].x=3', 'many[1].x=1',
+            'many=empty', 'many=empty&many[0].x=1', 'items[0].x=a', 'items[].x=1', 'items[0].x[0]=1', 'one.tags=a&one.tags=b', 'one.x=1&one.x=2',
+            'items.x=1', 'items[0].x=1&items[0].x=2', 'many[%s].x=1' % big, 'items[1].x=1&items[0].x=2', 'one.x.y=1', 'one[0].x=1', 'one.x=', 'one.x',
+            'items[0].x=1&items[00].x=2', 'items[0].x=1&items[0x1].x=2', 'items[１].x=1', 'items[1e3].x=1', 'items[0].x=%s' % big, 'one.tags=' + 'a' * 70000,
+            '&'.join('items[%d].x=%d' % (i, i) for i in range(300)), '&'.join('many[%d].tags[%d]=t' % (i, j) for i in range(20) for j in range(3)),
+            'items[2].x=1&items[0].x=2&items[1].x=3', 'one=&one.x=1', 'items=&items[0].x=1', 'items[0]=empty', 'one.tags=empty', 'hq=1', '=', 'one..x=1',
+            'one.=1', '.x=1', 'items[0]..x=1', 'items[0.x=1', 'items]0[.x=1', 'items[[0]].x=1']
+
+
+def part_http_flat(ctx, W, J, t2):
+    """HttpRpc GET: objects, arrays of objects and repeated objects in the flat `a.b[i].c` notation; `key=empty`; indexes that are
+    huge, sparse, repeated, malformed; strict and lenient arrays x validator"""
+    n = 0
+    for strict in (False, True):
+        for validator in (None, 'soft'):
+            s = W.server('http', validator, strict_arrays=strict)
+            for qi, qs in enumerate(flat_queries()):
+                env = base_environ('http', b'', path='/hq', qs=qs, method='GET')
+                del env['CONTENT_LENGTH']
+                try:
+                    qs.encode('latin-1')
+                except UnicodeEncodeError:
+                    env['QUERY_STRING'] = quote(qs, safe='=&[].')
+                env['c10.body'] = env['c10.raw'] = b''
+                r = run_wsgi(W, s, env)
+                n += 1
+                ctx.case({'flat': [strict, validator, qi]})
+                ctx.hit('flat:%s:%s' % ('strict' if strict else 'lenient', r.kind if r.kind != 'fault' else r.status))
+                rp = {'kind': 'flat', 'qs_index': qi, 'qs': qs[:300], 'strict': strict}
+                env['wsgi.input'] = Input(b'')
+                J.check(s, r, 'wsgi', rp, leaf='flat-notation', env=env)
+                t2.add(funnel_query(W, s, 'wsgi', env=env, key=std_key('http')), r, dict(rp, proto='http', validator=validator, transport='wsgi'))
+    ctx.cov['flat_requests'] = n
+    return n
+
+
+# ====================================================================================== round 4: SOAP multi-references
+H_SHAPES = ['resolves', 'missing', 'empty', 'cycle', 'selfCycle', 'root', 'dupId', 'deep']
+
+
+def href_keys():
+    return [(p, sh) for p in E_PROTOS for sh in H_SHAPES]
+
+
+def href_request(key):
+    proto, shape = key
+    ns = NS_SOAP11 if proto == 'soap11' else NS_SOAP12
+    t = lambda body, extra='': ('<e:Envelope xmlns:e="%s" xmlns:t="%s"><e:Body>%s%s</e:Body></e:Envelope>' % (ns, TNS, body, extra)).encode()
+    call = lambda s_: '<t:echo>%s<t:n>5</t:n></t:echo>' % s_
+    if shape == 'resolves':
+        return t(call('<t:s href="#a"/>'), '<x id="a">hi</x>')
+    if shape == 'missing':
+        return t(call('<t:s href="#nope"/>'))
+    if shape == 'empty':
+        return t(call('<t:s href=""/>'))
+    if shape == 'cycle':
+        return t(call('<t:s href="#a"/>'), '<x id="a"><y href="#b"/></x><z id="b"><w href="#a"/></z>')
+    if shape == 'selfCycle':
+        return t(call('<t:s><q href="#a"/></t:s>'), '<x id="a"><y><q2 href="#a"/></y></x>')
+    if shape == 'root':
+        return t('<t:echo href="#a"><t:n>5</t:n></t:echo>', '<t:echo id="a"><t:s>x</t:s></t:echo>')
+    if shape == 'dupId':
+        return t(call('<t:s id="a">x</t:s>').replace('<t:n>', '<t:n id="a">'))
+    chain_ = ''.join('<x id="c%d"><y href="#c%d"/></x>' % (i, i + 1) for i in range(60)) + '<x id="c60">end</x>'
+    return t(call('<t:s href="#c0"/>'), chain_)
+
+
+def _decision(r):
+    if r.kind == 'escape':
+        return ('escape', r.exc)
+    if r.kind == 'ok':
+        return ('called',) if r.calls == 1 else ('serverFault', 'calls=%d' % r.calls)
+    return ('clientFault', r.code) if is_client(r.code) else ('serverFault', r.code or 'None')
+
+
+def measure_href_table(W):
+    return [_decision(run_base(W, W.server(k[0], None), href_request(k))) for k in href_keys()]
+
+
+def part_multiref(ctx, W, J, t2):
+    n = 0
+    for key in href_keys():
+        data = href_request(key)
+        for validator in (None, 'soft', 'lxml'):
+            s = W.server(key[0], validator)
+            rp = {'kind': 'bytes', 'mutation': 'multiref:' + key[1], 'request_hex': data.hex(), 'request_len': len(data)}
+            r = run_base(W, s, data)
+            n += 1
+            ctx.case({'multiref': list(key), 'v': validator})
+            ctx.hit('multiref:%s:%s' % (key[1], r.kind if r.kind != 'fault' else ('client' if is_client(r.code) else 'server')))
+            J.check(s, r, 'base', rp, leaf='multiref', data=data)
+            t2.add(funnel_query(W, s, 'base', data=data), r, dict(rp, proto=key[0], validator=validator, transport='base'))
+            env = wsgi_env(key[0], data)
+            r = run_wsgi(W, s, env)
+            n += 1
+            env['wsgi.input'] = Input(data)
+            J.check(s, r, 'wsgi', rp, leaf='multiref', env=env)
+    return n
+
+
+# ====================================================================================== round 4: what the callable reads from the environ first
+U_SCRIPTS = ['empty', 'slash', 'doubleSlash', 'name']
+U_PATHS = ['empty', 'slash', 'name']
+U_HOSTS = ['absent', 'plain', 'withPort', 'junk']
+
+
+def url_keys():
+    return [(f, sc, pa, ho, hs) for f in P_FAMS for sc in U_SCRIPTS for pa in U_PATHS for ho in U_HOSTS for hs in (False, True)]
+
+
+def url_environ(W, key):
+    fam, sc, pa, ho, hs = key
+    proto = FAM_PROTO[fam]
+    script = {'empty': '', 'slash': '/', 'doubleSlash': '//mount', 'name': '/mount'}[sc]
+    path = {'empty': '', 'slash': '/', 'name': '/echo'}[pa]
+    if proto == 'http':
+        env = base_environ(proto, b'', path=path, qs='s=hi&n=5', method='GET')
+        del env['CONTENT_LENGTH']
+        body = b''
+    else:
+        body = W.echo_request(proto)
+        env = base_environ(proto, body, path=path)
+    env['SCRIPT_NAME'] = script
+    host = {'absent': None, 'plain': 'example.org', 'withPort': 'example.org:8443', 'junk': '\x00:::/?#[\xe9'}[ho]
+    if host is not None:
+        env['HTTP_HOST'] = host
+    if hs:
+        env['wsgi.url_scheme'] = 'https'
+        env['SERVER_PORT'] = '8443'
+    env['c10.body'] = env['c10.raw'] = body
+    return env, body
+
+
+def measure_url_table(W):
+    """every row against the same request with a plain environ: `proceed` when the answer is the same"""
+    rows, detail = [], {}
+    ref = {}
+    for key in url_keys():
+        fam, pa = key[0], key[2]
+        s = W.server(FAM_PROTO[fam], None)
+        env, body = url_environ(W, key)
+        r = run_wsgi(W, s, env)
+        if r.kind == 'escape':
+            rows.append(('escape', r.exc))
+            detail[key] = {'exc': r.exc, 'frame': r.frame}
+            continue
+        if (fam, pa) not in ref:
+            env0, _ = url_environ(W, (fam, 'empty', pa, 'absent', False))
+            env0['SCRIPT_NAME'] = ''
+            ref[(fam, pa)] = run_wsgi(W, s, env0).cls()
+        if r.cls() == ref[(fam, pa)] or r.kind == 'ok':
+            rows.append(('proceed',))
+        else:
+            rows.append(('reject', r.code or 'None', r.status or 0))
+    return rows, detail
+
+
+HEADER_SETS = [{'HTTP_COOKIE': 'a="\\777"; b; =c; d="\\'}, {'HTTP_COOKIE': 's=hi; n=5'}, {'HTTP_COOKIE': '\x00\xff;;;==='}, {'HTTP_COOKIE': 'n=' + '9' * 5000},
+               {'HTTP_CONTENT_TYPE': 'x', 'HTTP_CONTENT_LENGTH': 'abc'}, {'HTTP_X_' + 'A' * 5000: 'x'}, {'HTTP_': ''}, {'HTTP_S': 'x', 'HTTP_N': 'abc'},
+               {'HTTP_ACCEPT': '*/*' * 5000}, {'HTTP_SOAPACTION': '"\x00"'}, {'HTTP_TRANSFER_ENCODING': 'chunked'}, {'HTTP_EXPECT': '100-continue'},
+               {'HTTP_COOKIE': 'a=b'.join(';' for _ in range(2000))}, {'HTTP_X_FORWARDED_HOST': 'evil\r\nSet-Cookie: x=1'}]
+
+
+def part_environ(ctx, W, J, t2, facts):
+    n = 0
+    for key in url_keys():
+        fam = key[0]
+        protos = {'soap': ['soap11', 'soap12'], 'plain': ['xml', 'json', 'yaml', 'msgpack'], 'http': ['http']}[fam]
+        for proto in (protos if ctx.thorough else protos[:1] + protos[1:][(hash(key[1:4]) + ctx.seed) % max(len(protos) - 1, 1):][:1]):
+            s = W.server(proto, None)
+            env, body = url_environ(W, key)
+            if proto != FAM_PROTO[fam]:
+                body = W.echo_request(proto)
+                env2 = base_environ(proto, body, path=env['PATH_INFO'])
+                for k_ in ('SCRIPT_NAME', 'HTTP_HOST', 'wsgi.url_scheme', 'SERVER_PORT'):
+                    if k_ in env:
+                        env2[k_] = env[k_]
+                env = env2
+            r = run_wsgi(W, s, env)
+            n += 1
+            ctx.case({'url': list(key), 'proto': proto})
+            ctx.hit('url:%s:%s' % (fam, r.kind if r.kind != 'fault' else r.status))
+            rp = {'kind': 'url', 'key': list(key)}
+            env['wsgi.input'] = Input(body)
+            J.check(s, r, 'wsgi', rp, leaf='url', env=env)
+    for proto in ('xml', 'soap11', 'json', 'http'):
+        for validator in (None, 'soft'):
+            s = W.server(proto, validator, **({'parse_cookie': True} if proto == 'http' else {}))
+            for hi, hs in enumerate(HEADER_SETS):
+                if proto == 'http':
+                    env = base_environ(proto, b'', path='/echo', qs='s=hi&n=5', method='GET')
+                    body = b''
+                else:
+                    body = W.echo_request(proto)
+                    env = base_environ(proto, body)
+                env.update(hs)
+                r = run_wsgi(W, s, env)
+                n += 1
+                ctx.case({'headers': [proto, validator, hi]})
+                ctx.hit('headers:%s:%s' % (family(proto), r.kind if r.kind != 'fault' else r.status))
+                rp = {'kind': 'headers', 'index': hi}
+                env['wsgi.input'] = Input(body)
+                J.check(s, r, 'wsgi', rp, leaf='http-headers', env=env)
+    ctx.cov['environ_requests'] = n
+    return n
+
+
+def report_table_findings(ctx, W, f):
+    for key, d in zip(href_keys(), f['hrefTable']):
+        if d[0] in ('called', 'clientFault'):
+            continue
+        s = W.server(key[0], None)
+        data = href_request(key)
+        diag = diagnose(W, s, data=data) if d[0] == 'serverFault' else None
+        ctx.hit('fact-bad:href')
+        ctx.finding('c10:%s:soap:%s:%s' % ('escape:base' if d[0] == 'escape' else 'server-fault', d[1] if d[0] == 'escape' else (diag[0] if diag else 'server-fault'),
+                                        diag[1] if diag else 'multiref'),
+                    'a %s request with id/href references of shape %s is answered with %s %s%s instead of a Client fault' % (
+                        key[0], key[1], d[0], d[1], ': %s raised in %s during %s' % diag if diag else ''),
+                    {'kind': 'bytes', 'mutation': 'multiref:' + key[1], 'proto': key[0], 'validator': None, 'request_hex': data.hex(), 'request_len': len(data)})
+    for key, d in zip(url_keys(), f['urlTable']):
+        bad = d[0] == 'escape' or (d[0] == 'reject' and not is_client(d[1]))
+        if not bad:
+            continue
+        det = f['urlDetail'].get(key, {})
+        ctx.hit('fact-bad:url')
+        ctx.finding('c10:escape:wsgi:%s:%s:%s' % ({'soap': 'soap', 'plain': 'json', 'http': 'http'}[key[0]], d[1], det.get('frame')) if d[0] == 'escape'
+                    else 'c10:transport-answer:%s:%s:%s' % (key[0], d[1], d[2]),
+                    'environ class SCRIPT_NAME=%s PATH_INFO=%s HTTP_HOST=%s https=%s (%s): %s' % (key[1], key[2], key[3], key[4], key[0],
+                        '%s escapes the WSGI callable (innermost spyne frame %s)' % (d[1], det.get('frame')) if d[0] == 'escape' else 'answered with %s / %s' % (d[1], d[2])),
+                    {'kind': 'url', 'key': list(key), 'proto': FAM_PROTO[key[0]], 'validator': None})
+
+
+# ====================================================================================== round 4: further configurations
+def mime_body(parts, boundary='c10bnd', close=True):
+    out = b''
+    for headers, payload in parts:
+        out += b'--' + boundary.encode() + b'\r\n' + headers + b'\r\n\r\n' + payload + b'\r\n'
+    if close:
+        out += b'--' + boundary.encode() + b'--\r\n'
+    return out
+
+
+def part_configs(ctx, W, J, t2):
+    """(i) SOAP with attachments: multipart/related bodies; (ii) a method with a single declared SOAP header; (iii) polymorphic dict
+    documents with class-name wrappers; (iv) the user function raising, through WsgiApplication"""
+    from .hierblock import dump
+    n = 0
+    # (i)
+    ct = ctype_text('multipartBoundary', 'soap11')
+    for proto in ('soap11', 'soap12'):
+        soap = W.echo_request(proto)
+        h = b'Content-Type: text/xml; charset=utf-8\r\nContent-ID: <soap>'
+        bodies = [('mime-ok', mime_body([(h, soap)])), ('mime-two', mime_body([(h, soap), (b'Content-Type: application/octet-stream\r\nContent-ID: <att>', b'\x00\x01')])),
+                  ('mime-bad-xml', mime_body([(h, b'<a')])), ('mime-no-part', mime_body([])), ('mime-open', mime_body([(h, soap)], close=False)),
+                  ('mime-junk', b'\x00\xff--c10bnd\r\n\r\n'), ('mime-other-start', mime_body([(b'Content-Type: text/xml\r\nContent-ID: <zz>', soap)])),
+                  ('mime-empty', b''), ('mime-plain', soap), ('mime-base64', mime_body([(h + b'\r\nContent-Transfer-Encoding: base64', b'!!!!')])),
+                  ('mime-xop', mime_body([(h, soap.replace(b'hi', b'<xop:Include xmlns:xop="http://www.w3.org/2004/08/xop/include" href="cid:nope"/>'))]))]
+        for validator in (None, 'soft'):
+            s = W.server(proto, validator)
+            for tag, body in bodies:
+                for ctv in (ct, ct + '; charset=bogus', 'multipart/related; boundary=""', 'multipart/related; boundary=c10bnd; start="<nope>"'):
+                    env = base_environ(proto, body)
+                    env['CONTENT_TYPE'] = ctv
+                    r = run_wsgi(W, s, env)
+                    n += 1
+                    ctx.case({'mime': [proto, validator, tag, ctv]})
+                    ctx.hit('mime:%s:%s' % (tag, r.kind if r.kind != 'fault' else ('client' if is_client(r.code) else 'server')))
+                    rp = {'kind': 'mime', 'tag': tag, 'content_type': ctv, 'body_hex': body.hex()}
+                    env['wsgi.input'] = Input(body)
+                    J.check(s, r, 'wsgi', rp, leaf='multipart', env=env)
+    # (ii)
+    for proto in ('soap11', 'soap12'):
+        ns = NS_SOAP11 if proto == 'soap11' else NS_SOAP12
+        for hdr in ('', '<e:Header><t:HdrA><t:token>t</t:token></t:HdrA></e:Header>', '<e:Header><t:HdrA><t:token>t</t:token></t:HdrA><t:HdrA/></e:Header>',
+                    '<e:Header><t:HdrA>text<zz/></t:HdrA></e:Header>', '<e:Header><t:HdrB><t:n>abc</t:n></t:HdrB></e:Header>', '<e:Header><t:HdrA xmlns:i="%s" i:nil="true"/></e:Header>' % XSI):
+            data = ('<e:Envelope xmlns:e="%s" xmlns:t="%s">%s<e:Body><t:echoh1><t:s>hi</t:s><t:n>5</t:n></t:echoh1></e:Body></e:Envelope>' % (ns, TNS, hdr)).encode()
+            for validator in (None, 'soft', 'lxml'):
+                s = W.server(proto, validator)
+                r = run_base(W, s, data)
+                n += 1
+                ctx.case({'header1': [proto, validator, hdr[:40]]})
+                rp = {'kind': 'bytes', 'mutation': 'single-header', 'request_hex': data.hex(), 'request_len': len(data)}
+                J.check(s, r, 'base', rp, leaf='soap-header', data=data)
+                t2.add(funnel_query(W, s, 'base', data=data), r, dict(rp, proto=proto, validator=validator, transport='base'))
+    # (iii)
+    docs = [{'items': [{'SubItem10': {'x': 1, 'y': 2}}, {'Item10': {'x': 3}}]}, {'items': [{'Nope': {'x': 1}}]}, {'items': [{'HdrA': {'token': 't'}}]},
+            {'one': {'SubItem10': {'x': 'a'}}}, {'one': {'SubItem10': None}}, {'one': {'SubItem10': []}}, {'one': {'SubItem10': {}, 'Item10': {}}}, {'one': {'': {}}},
+            {'one': {'x': 1}}, {'many': [{'SubItem10': {'y': [1]}}, 5]}, {'one': {'SubItem10': {'tags': 'abc'}}}, {'one': {'hq': {}}}, {'one': {5: {}}}]
+    for proto in DICT_PROTOS:
+        for validator in (None, 'soft'):
+            s = W.server(proto, validator, polymorphic=True)
+            for di, d in enumerate(docs):
+                doc = [0, 1, 'hq', d] if proto == 'msgpackrpc' else {'hq': d}
+                try:
+                    data = dump('msgpack' if proto == 'msgpackrpc' else proto, doc)
+                except Exception:
+                    continue
+                r = run_base(W, s, data)
+                n += 1
+                ctx.case({'poly': [proto, validator, di]})
+                ctx.hit('poly:%s:%s' % (family(proto), r.kind if r.kind != 'fault' else ('client' if is_client(r.code) else 'server')))
+                rp = {'kind': 'bytes', 'mutation': 'polymorphic', 'opts': {'polymorphic': True}, 'request_hex': data.hex(), 'request_len': len(data)}
+                J.check(s, r, 'base', rp, leaf='polymorphic', data=data)
+                t2.add(funnel_query(W, s, 'base', data=data), r, dict(rp, proto=proto, validator=validator, transport='base'))
+    # (iv)
+    from spyne.model.fault import Fault
+    for proto in ('json', 'soap11', 'http'):
+        s = W.server(proto, None)
+        for mk, want in ((lambda: Fault(PROBE_FAULT, 'probe'), 'client'), (lambda: ProbeError('probe'), 'server')):
+            W.boom = mk()
+            try:
+                env = base_environ(proto, b'', path='/echo', qs='s=hi&n=5', method='GET') if proto == 'http' else base_environ(proto, W.echo_request(proto))
+                r = run_wsgi(W, s, env)
+            finally:
+                W.boom = None
+            n += 1
+            ctx.case({'user-raises': [proto, want]})
+            got = 'escape' if r.kind == 'escape' else ('ok' if r.kind == 'ok' else ('client' if is_client(r.code) else 'server'))
+            if got != want or r.calls != 1 or (want == 'client' and family(proto) != 'soap' and not 400 <= (r.status or 0) < 500):
+                J._finding('c10:user-exception:%s:%s:%s' % (family(proto), want, got),
+                           'the user function raises a %s: answered with %s, status %s, %d calls' % ('Client fault' if want == 'client' else 'non-Fault exception', got, r.status, r.calls),
+                           {'kind': 'user', 'proto': proto, 'validator': None, 'want': want})
+    ctx.cov['config_requests'] = n
     return n
